@@ -35,6 +35,8 @@ Record link := mkLink {
   l_sink_closed : option Z;
   l_rx : Z;                 (* bytes the reader took from the source (link.read's count) *)
   l_tx : Z;                 (* bytes the writer wrote to the sink (link.write's count) *)
+  l_sink_delay : list Z;    (* how long the receiver takes to accept each write, cyclically ([] = always ready) *)
+  l_wr_ready : Z;           (* the writer is inside dest.Write until this instant *)
 }.
 
 Fixpoint set_nth {A} (n : nat) (x : A) (l : list A) : list A :=
@@ -46,7 +48,7 @@ Fixpoint set_nth {A} (n : nat) (x : A) (l : list A) : list A :=
 
 Definition upd_stub (l : link) (i : nat) (s : stub) : link :=
   mkLink (l_now l) (l_src l) (l_rest l) (l_rd l) (set_nth i s (l_stubs l)) (l_draws l)
-         (l_trace l) (l_sink_closed l) (l_rx l) (l_tx l).
+         (l_trace l) (l_sink_closed l) (l_rx l) (l_tx l) (l_sink_delay l) (l_wr_ready l).
 
 Definition with_st (s : stub) (st : lstate) : stub :=
   mkStub (s_tx s) (s_eff s) st (s_ps s) (s_inq s) (s_cap s) (s_in_closed s) (s_closed s).
@@ -56,7 +58,7 @@ Definition stub_input (l : link) (i : nat) (s : stub) (c : option chunk) (inq' :
   let '(st', ds) := on_input (eff_tx s) (s_ps s) (l_now l) (l_draws l) c (s_st s) in
   let s' := mkStub (s_tx s) (s_eff s) st' (s_ps s) inq' (s_cap s) (s_in_closed s) (s_closed s) in
   mkLink (l_now l) (l_src l) (l_rest l) (l_rd l) (set_nth i s' (l_stubs l)) ds
-         (l_trace l) (l_sink_closed l) (l_rx l) (l_tx l).
+         (l_trace l) (l_sink_closed l) (l_rx l) (l_tx l) (l_sink_delay l) (l_wr_ready l).
 
 Definition stub_sent (l : link) (i : nat) (s : stub) : link :=
   let '(st', ps') := on_sent (eff_tx s) (s_ps s) (l_now l) (s_st s) in
@@ -68,13 +70,15 @@ Definition listens_input (s : stub) : bool :=
 Definition deliver_sink (l : link) (c : chunk) : link :=
   if (zlen (cdata c) =? 0) then l else
   mkLink (l_now l) (l_src l) (l_rest l) (l_rd l) (l_stubs l) (l_draws l)
-         ((l_now l, cdata c) :: l_trace l) (l_sink_closed l) (l_rx l) (l_tx l + zlen (cdata c)).
+         ((l_now l, cdata c) :: l_trace l) (l_sink_closed l) (l_rx l) (l_tx l + zlen (cdata c))
+         (match l_sink_delay l with d :: r => r ++ [d] | [] => [] end)
+         (l_now l + match l_sink_delay l with d :: _ => d | [] => 0 end).
 
 (** hand [c] to the consumer at position [j] (a stub, or the sink when [j] is past the end);
     [None] if the hand-off cannot happen now *)
 Definition offer (l : link) (j : nat) (c : chunk) : option link :=
   match nth_error (l_stubs l) j with
-  | None => Some (deliver_sink l c)
+  | None => if l_wr_ready l <=? l_now l then Some (deliver_sink l c) else None
   | Some t =>
     if 0 <? s_cap t then
       if zlen (s_inq t) <? s_cap t then
@@ -89,7 +93,7 @@ Definition offer (l : link) (j : nat) (c : chunk) : option link :=
 Definition close_downstream (l : link) (j : nat) : link :=
   match nth_error (l_stubs l) j with
   | None => mkLink (l_now l) (l_src l) (l_rest l) (l_rd l) (l_stubs l) (l_draws l)
-                   (l_trace l) (Some (l_now l)) (l_rx l) (l_tx l)
+                   (l_trace l) (Some (Z.max (l_now l) (l_wr_ready l))) (l_rx l) (l_tx l) (l_sink_delay l) (l_wr_ready l)
   | Some t => upd_stub l j (mkStub (s_tx t) (s_eff t) (s_st t) (s_ps t) (s_inq t) (s_cap t) true (s_closed t))
   end.
 
@@ -159,7 +163,8 @@ Fixpoint try_stubs (l : link) (k : nat) : option link :=   (* stubs k-1 down to 
   end.
 
 Definition set_rd (l : link) (rd : rstate) (src : list src_ev) (rest : bytes) (rx : Z) : link :=
-  mkLink (l_now l) src rest rd (l_stubs l) (l_draws l) (l_trace l) (l_sink_closed l) rx (l_tx l).
+  mkLink (l_now l) src rest rd (l_stubs l) (l_draws l) (l_trace l) (l_sink_closed l) rx (l_tx l)
+         (l_sink_delay l) (l_wr_ready l).
 
 Definition take_piece (l : link) (d : bytes) (src : list src_ev) : link :=
   let n := Z.to_nat (Z.min read_buf_size (zlen d)) in
@@ -211,7 +216,8 @@ Definition stub_deadline (s : stub) : option Z :=
   end.
 
 Definition next_time (l : link) : option Z :=
-  let ds := fold_right (fun s acc => opt_min (stub_deadline s) acc) None (l_stubs l) in
+  let ds0 := fold_right (fun s acc => opt_min (stub_deadline s) acc) None (l_stubs l) in
+  let ds := if l_now l <? l_wr_ready l then opt_min (Some (l_wr_ready l)) ds0 else ds0 in
   match l_rd l, l_rest l, l_src l with
   | RIdle, [], e :: _ => opt_min (Some (ev_time e)) ds
   | _, _, _ => ds
@@ -219,7 +225,7 @@ Definition next_time (l : link) : option Z :=
 
 Definition set_now (l : link) (t : Z) : link :=
   mkLink t (l_src l) (l_rest l) (l_rd l) (l_stubs l) (l_draws l) (l_trace l) (l_sink_closed l)
-         (l_rx l) (l_tx l).
+         (l_rx l) (l_tx l) (l_sink_delay l) (l_wr_ready l).
 
 (** run until quiescent forever (nothing enabled, no deadline) or until virtual time [horizon];
     [None] = out of fuel *)
@@ -248,8 +254,11 @@ Fixpoint mk_stubs (chain : list (toxic * bool)) (first : bool) (now : Z) : list 
            (if first then 0 else buffer_size tx) false false :: mk_stubs rest false now
   end.
 
+Definition link_init_slow (chain : list (toxic * bool)) (src : list src_ev) (draws : list Z) (sink_delay : list Z) : link :=
+  mkLink 0 src [] RIdle (mk_stubs ((TNoop, true) :: chain) true 0) draws [] None 0 0 sink_delay 0.
+
 Definition link_init (chain : list (toxic * bool)) (src : list src_ev) (draws : list Z) : link :=
-  mkLink 0 src [] RIdle (mk_stubs ((TNoop, true) :: chain) true 0) draws [] None 0 0.
+  link_init_slow chain src draws [].
 
 (** ---- all schedules: the same transitions, chosen by an arbitrary scheduler. [ATick] lets any
     amount of time pass at any moment (real executions take time to compute), so every timed
